@@ -1,6 +1,7 @@
 (* Model of vivarium/framework/randomness/index_map.py : IndexMap  (DESIGN.md C03, C04).
 
-   index_map.py anchors (line numbers of /repo/src at commit b091dd41, docstrings stripped):
+   index_map.py anchors (line numbers of /repo/src at commit b091dd41, docstrings stripped; 11362e66 adds 3 lines to
+   _convert_to_ten_digit_int):
      _convert_to_ten_digit_int 194-230, _clip_to_seconds 239-241, _spread 243-245, _shift 247-250 -> [conv10]
      _digit 233-236                                                                               -> [digit]
      _hash 158-192 (wrapping int64 product of prime powers, + salt per column, floor-mod size)     -> [hash_raw], [hash]
@@ -10,8 +11,11 @@
      __getitem__ 252-259                                                                            -> [getitem]
 
    A key-column value is a [cell]:
-     KDate raw    datetime64 value, [raw] = the int64 the column holds IN ITS OWN UNIT (the code calls
-                  column.astype(int64) and floor-divides by 10^9 whatever the unit is - pandas 3 stores us by default)
+     KDate ns     datetime64 value: the INSTANT in nanoseconds since the epoch, whatever unit (s/ms/us/ns) the column
+                  stores - since commit 11362e66 (finding F-AJ) the code converts the column to ns before it clips to
+                  seconds; before, it divided the raw int64 of the column's own unit by 10^9, so the same instant
+                  hashed differently per storage unit.  Unit irrelevance is therefore BY CONSTRUCTION of this
+                  encoding; the correspondence stores the same instants in mixed units on purpose.
      KInt v       int64
      KFloat n k   the double n / 2^k  (n, k as given by float.as_integer_ratio: lowest terms, k >= 0), finite
      KBad         any other dtype (str, bool, ...): _convert_to_ten_digit_int raises RandomnessError
@@ -74,7 +78,7 @@ Definition shift_float (n k : Z) : Z :=
    never fire; negative integers are hashed like any other.)  KBad -> 0 is never used: [update] rejects first. *)
 Definition conv10 (c : cell) : Z :=
   match c with
-  | KDate raw => raw / 1000000000                    (* _clip_to_seconds: m // Timedelta(1, "s").value *)
+  | KDate ns => ns / 1000000000                      (* .dt.as_unit("ns"), then _clip_to_seconds: m // 10^9 *)
   | KInt v => wrap64 (111111 * v) mod TEN            (* _spread, int64 product wraps, numpy % is floor-mod *)
   | KFloat n k => shift_float n k
   | KBad => 0
